@@ -239,6 +239,83 @@ example :
 
 end Effective
 
+/-! ### histories: the conversion is a function of its arguments -/
+
+section History
+variable {I K : Type} [Field K]
+
+/-- **C14_call_returns_arguments.**  A call returns its argument objects (incidence, weights, data) unchanged, and the value
+it returns for node `i` is `e2nMean` / `e2nEffective` of exactly these arguments — the subject of the law theorems above.
+(The first part holds by definition of the model; it is the statement the harness ties to the code by comparing a bit-exact
+snapshot of every argument object taken before a call with the object after the call.) -/
+theorem C14_call_returns_arguments (rel : I → Nat → Nat → Bool) (n e : Nat) (mode : ConvMode) (a : ConvArgs I K) :
+    (e2nCall rel n e mode a).2 = a ∧
+    (e2nCall rel n e mode a).1.length = n ∧
+    ∀ i, i < n → (e2nCall rel n e mode a).1[i]? = some (match mode with
+      | .mean => e2nMean e (rel a.inc) (fun j => a.weights.getD j 0) (fun j => a.data.getD j 0) i
+      | .effective => e2nEffective n e (rel a.inc) (fun j => a.data.getD j 0) i) := by
+  refine ⟨rfl, by simp [e2nCall], ?_⟩
+  intro i h
+  cases mode <;> simp [e2nCall, e2nValue, h]
+
+/-- **C14_history_fresh.**  In a history of conversions that all receive the same incidence object, every call returns what
+the same call returns on the ORIGINAL incidence object (i.e. what a call with freshly built, equal arguments returns), and the
+incidence object is unchanged at the end — whatever the modes, weights and data of the earlier calls were. -/
+theorem C14_history_fresh (rel : I → Nat → Nat → Bool) (n e : Nat) (cs : List (ConvCall K)) (inc : I) :
+    (e2nHistory rel n e cs inc).1 = cs.map (fun c => e2nCall rel n e c.mode ⟨inc, c.weights, c.data⟩) ∧
+    (e2nHistory rel n e cs inc).2 = inc := by
+  induction cs with
+  | nil => exact ⟨rfl, rfl⟩
+  | cons c cs ih =>
+    have h1 : (e2nCall rel n e c.mode (⟨inc, c.weights, c.data⟩ : ConvArgs I K)).2.inc = inc := rfl
+    simp only [e2nHistory, h1, ih.1, ih.2, List.map_cons, and_self]
+
+/-- **C14_history_value.**  Consequently the value at node `i` returned by the `k`-th call of any history is `e2nMean` (mode
+'mean') resp. `e2nEffective` (mode 'effective') of the original incidence relation and that call's own weights and data: the
+law theorems (`C14_constants`, `C14_bounds`, `C14_weights_prop_size`, `C14_effective_colsum`, `C14_effective_total`) apply to
+every call of a history, not only to the first. -/
+theorem C14_history_value (rel : I → Nat → Nat → Bool) (n e : Nat) (cs : List (ConvCall K)) (inc : I)
+    (k : Nat) (c : ConvCall K) (hk : cs[k]? = some c) (i : Nat) (hi : i < n) :
+    ((e2nHistory rel n e cs inc).1[k]?.map fun out => out.1[i]?) = some (some (match c.mode with
+      | .mean => e2nMean e (rel inc) (fun j => c.weights.getD j 0) (fun j => c.data.getD j 0) i
+      | .effective => e2nEffective n e (rel inc) (fun j => c.data.getD j 0) i)) := by
+  rw [(C14_history_fresh rel n e cs inc).1, List.getElem?_map, hk]
+  simp only [Option.map_some]
+  exact congrArg some ((C14_call_returns_arguments rel n e c.mode ⟨inc, c.weights, c.data⟩).2.2 i hi)
+
+/-- non-vacuity: 'mean' with sizes (1, 2), then 'effective', then 'mean' again on the same incidence object (pairs of `inc₀`):
+the third call returns what the first returned (7 at node 0: weights 1/3, 2/3), the 'effective' call in between 3 + 9/2 -/
+example :
+    let cs : List (ConvCall ℚ) := [⟨.mean, [1, 2], [3, 9]⟩, ⟨.effective, [], [3, 9]⟩, ⟨.mean, [1, 2], [3, 9]⟩]
+    let h := e2nHistory incOfPairs 2 2 cs [(0, 0), (0, 1), (1, 1)]
+    h.1.map (·.1) = [[7, 9], [15 / 2, 9 / 2], [7, 9]] ∧ h.2 = [(0, 0), (0, 1), (1, 1)] := by
+  intro cs h
+  refine ⟨?_, (C14_history_fresh incOfPairs 2 2 cs _).2⟩
+  simp only [h, (C14_history_fresh incOfPairs 2 2 cs _).1, cs]
+  norm_num [e2nCall, e2nValue, e2nMean, e2nEffective, meanWeight, effWeight, metricInc, ind, sumTo, incOfPairs,
+    List.range_succ]
+
+end History
+
+/-- **C14_inplace_counterexample.**  "Returns its arguments unchanged" is not a formality: for the variant that applies the
+weights by scaling the caller's incidence matrix in place (`e2nMeanInPlace`; not femio — seeded change C14-6) the first call is
+right (7 at node 0 for sizes 1, 2 and values 3, 9: weights 1/3, 2/3) but a second identical call on the matrix left behind
+uses the weights 1/5, 4/5 — proportional to size² — and returns 39/5.  Constants are still preserved by that second call, so
+only a check of the weights themselves can see it. -/
+theorem C14_inplace_counterexample :
+    let A₀ : Nat → Nat → ℚ := fun i j => ind (decide (i ≤ j))
+    let m : Nat → ℚ := fun j => (j : ℚ) + 1
+    let x : Nat → ℚ := fun j => if j = 0 then 3 else 9
+    let first := e2nMeanInPlace 2 A₀ m x
+    let second := e2nMeanInPlace 2 first.2 m x
+    first.1 0 = 7 ∧ first.1 0 = e2nMean 2 (fun i j => decide (i ≤ j)) m x 0 ∧
+    second.1 0 = 39 / 5 ∧ meanWeightV 2 first.2 m 0 0 = 1 / 5 ∧ meanWeightV 2 first.2 m 0 1 = 4 / 5 ∧
+    (e2nMeanInPlace 2 first.2 m (fun _ => 7)).1 0 = 7 := by
+  intro A₀ m x first second
+  simp only [first, second, A₀, m, x]
+  refine ⟨?_, ?_, ?_, ?_, ?_, ?_⟩ <;>
+    norm_num [e2nMeanInPlace, meanWeightV, e2nMean, meanWeight, metricInc, ind, sumTo, List.range_succ]
+
 /-! ### the incidence relation of a mesh -/
 
 /-- **C14_incidence_of_mesh.**  For a mesh with distinct node ids and distinct element ids the Boolean matrix used by the
